@@ -77,3 +77,26 @@ Proof.
     + unfold olen in *. cbn [iout]. rewrite rev_append_rev, app_length, rev_length, Nat2N.inj_add. lia.
     + exists w'. split; [lia|]. split; [exact B|exact C].
 Qed.
+
+(* leaves L p : every value p can return satisfies L (any calls allowed) - the carrier of Hoare-style reasoning on decoder monads *)
+Inductive leaves {A : Type} (L : A -> Prop) : sprog A -> Prop :=
+| lv_ret a : L a -> leaves L (SRet a)
+| lv_do c k : (forall r, leaves L (k r)) -> leaves L (SDo c k).
+Lemma leaves_sbind {A B} (L1 : A -> Prop) (L2 : B -> Prop) (p : sprog A) (f : A -> sprog B) :
+  leaves L1 p -> (forall a, L1 a -> leaves L2 (f a)) -> leaves L2 (sbind p f).
+Proof. intros Hp Hf. induction Hp as [a La|c k Hk IH]; cbn [sbind]; auto. constructor. exact IH. Qed.
+Lemma leaves_weaken {A} (L L' : A -> Prop) (p : sprog A) : leaves L p -> (forall a, L a -> L' a) -> leaves L' p.
+Proof. intros Hp HL. induction Hp; constructor; auto. Qed.
+Lemma nowrite_leaves {A} (L : A -> Prop) (p : sprog A) : nowrite L p -> leaves L p.
+Proof. intro Hp. induction Hp; constructor; auto. Qed.
+Lemma leaves_run {A} (L : A -> Prop) rule hint (p : sprog A) : leaves L p -> forall s a s', ideal rule hint p s = (SVal a, s') -> L a.
+Proof.
+  intro Hp. induction Hp as [a La|c k Hk IH]; intros s a' s' H; cbn [ideal] in H.
+  - inversion H; subst. exact La.
+  - destruct c.
+    + unfold ideal_next in H. destruct (irest s) as [|b r0]; [discriminate|]. exact (IH _ _ _ _ H).
+    + destruct (irest s) as [|b r0]; [discriminate|]. exact (IH _ _ _ _ H).
+    + destruct (ideal_take rule n s []) as [[l s1]|e]; [|discriminate]. exact (IH _ _ _ _ H).
+    + exact (IH _ _ _ _ H).
+    + exact (IH _ _ _ _ H).
+Qed.
